@@ -114,6 +114,13 @@ func c11Defaults(r *core.Run) {
 
 func c11Run(r *core.Run) {
 	if r.Index == 0 {
+		// first a verification under a private pool, so that the samples are never the first thing this process
+		// verifies: what the library keeps of its embedded root is not what an earlier caller trusted
+		w0 := world.NewWorld(r.T, world.Cfg{AuthLen: 0, NetLat: -1})
+		if o := verifyRaw(w0.Quote.Bytes(), worldOpts(w0, O0)); !o.Accepted() {
+			r.Violate("C11:honest-rejected:base:"+errClass(o), "honest in-date world (%s) rejected: %s", w0.Describe(), o.ErrText())
+		}
+		r.Eval()
 		c11Samples(r)
 		return
 	}
@@ -163,6 +170,12 @@ func c11Run(r *core.Run) {
 		}
 	}
 	r.Sample("honest world %s: accepted at base / collateral / collateral+revocation in raw, parsed and field-built form", w.Describe())
+	if r.Index%16 == 5 {
+		// the embedded-root clause once more, now AFTER verifications under a private pool in the same process: what
+		// the library keeps of its embedded root is not what an earlier caller trusted
+		c11Samples(r)
+		r.Probe("intel_samples_after_verifications_under_a_private_pool")
+	}
 
 	// One options value used at a rising checking level (a long-lived verifier that switches
 	// revocation checking on): every call must still accept the honest quote.
